@@ -10,7 +10,7 @@ From Coq Require Import List Bool Arith NArith.
 Import ListNotations.
 Require Import Kinds Automaton PyStr Line Matcher Ast Builder Pipeline PipelineFacts Dialects
                RefSem Nesting C02Lemmas Delivery DeliveryInst KeywordFacts BuilderFacts DocStringFacts Table
-               BuilderSafe MatcherTyping DenseMain ConserveDefs ConserveMain.
+               BuilderSafe MatcherTyping DenseMain ConserveDefs ConserveMain Grammar ConserveSentence.
 
 (* each physical line is delivered exactly once, in source order, then one EOF (accepted documents) *)
 Theorem C03_every_line_once : forall stop m b src c, wf_ms m ->
@@ -75,14 +75,18 @@ Print Assumptions C03_step.
    content) -> its non-blank text; opening doc-string delimiter -> delimiter, media type, location; a closing
    delimiter -> nothing), and the document's comment list is
    exactly the comment lines.  So every feature / rule / background / scenario / examples / step / row / tag /
-   comment line of the source appears exactly once, in order, and nothing else appears. *)
+   comment line of the source appears exactly once, in order, and nothing else appears.  The kinds of those tokens,
+   the end of file last, form a sentence of gherkin.berp (`runR G`, the reference recogniser of the regenerated
+   grammar: C02_accepted_is_sentence, about the same reading of the source): which line opens which element, and
+   hence the parent of every element, is the grammar's. *)
 Theorem C03_conservation : forall stop m b src d m1 b1 n, wf_ms m -> parse_source stop m b src = POk d m1 b1 n ->
   exists kts : list (kind * token),
     map (fun kt => tkey (snd kt)) kts = source_keys src
     /\ Forall (fun kt => tok_made (fst kt) (snd kt)) kts
+    /\ runR G (map fst kts) = true
     /\ doc_elems d = flat_map kt_elems kts
     /\ doc_comments d = flat_map kt_comments kts.
-Proof. exact source_conservation. Qed.
+Proof. exact source_conservation_sentence. Qed.
 Print Assumptions C03_conservation.
 
 (* non-vacuity: a document with every kind of element is accepted; its 24 elements and 1 comment *)
